@@ -35,6 +35,18 @@ def gen(rng, facts):
     def a_flush(t):
         i = c.next_id; c.next_id += 1
         return ('flush', t, i, rng.randrange(nl), SZ_FLUSH)
+    if dropping == 2 and nt >= 2 and g > 0 and rng.random() < 0.5:
+        # unbounded queue growing to a new node: 64-byte records fill a node exactly, the hard limit stops the read on
+        # the node boundary; another thread's flush_log() must still wait for the statements in the newer node
+        per_node = (1 << c.capk) // 64
+        if per_node <= 16:
+            c.hard = rng.choice([per_node, per_node, 2 * per_node]); c.soft = rng.choice([1, 2, min(4, c.hard), c.hard])
+            a, b = 0, 1
+            for _ in range(c.hard + rng.randint(1, per_node + 2)):
+                i = c.next_id; c.next_id += 1
+                c.cmds.append(('log', a, i, 0, 4, 64, 0, False))
+            c.tick(1); c.cmds.append(a_flush(b)); c.tick(rng.choice([2 * g, g + 1]))
+            for _ in range(rng.randint(1, 3)): c.poll(); c.resume(b)
     for _ in range(rng.randint(5, 40)):
         r = rng.random(); t = rng.randrange(nt)
         if r < 0.4: c.cmds.append(a_log(t))
@@ -154,7 +166,7 @@ def nontrivial(case, obs):
     return any(any(d['outcome'] == 'accepted' and d['ret'] is not None and d['ret'] < f['start'] for d in tr.stmts.values()) for f in rets)
 
 
-RULE = ('sink_min_flush_interval 0 / 1 ms / 5 ms (virtual steady clock), 15% of the sinks with a flush_sink() that throws (the others must still be flushed), 1-4 threads (+1 first-time thread), 1-3 recording sinks shared by 1-2 loggers in random patterns, blocking and dropping queues of 256/1024/4096 bytes, '
+RULE = ('sink_min_flush_interval 0 / 1 ms / 5 ms (virtual steady clock), 15% of the sinks with a flush_sink() that throws (the others must still be flushed), 1-4 threads (+1 first-time thread), 1-3 recording sinks shared by 1-2 loggers in random patterns, blocking, dropping and unbounded (growing) queues of 256/1024/4096 bytes (unbounded: bursts that fill a node exactly with the hard limit on the node boundary before the flush of another thread), '
         '35% of the cases with records of C/4..C/2 so that queues fill and flush requests are refused and retried; grace 0/1000/5000; flush_log() callers resumed at top level '
         'and at the yield points inside poll (Y1-Y8: around the clock read, between queue reads, in the batch loop, in the single-event branch, in the idle stages); '
         'statements and further flush requests of other threads injected at the same points; thread exits; each case ends with a drain; '
